@@ -127,7 +127,7 @@ ScimWrapped(sf) == And(<<HiddenW, And(<<Eq("class", 93), FromScim(sf)>>)>>)
 \* unlimited): a fully unindexed candidate set (AllIds) is then refused (ResourceLimit), never scanned.
 L2Answer(wrapped, db, idx, c, limited) ==
   IF HasRej(wrapped) \/ HasEmpty(wrapped) THEN [rej |-> TRUE, s |-> {}]
-  ELSE LET rf == Rewrite(wrapped, idx, 0)
+  ELSE LET rf == IF c.fix THEN RewriteFixed(wrapped, idx, 0) ELSE Rewrite(wrapped, idx, 0)
            idl == F2I(rf, db, c)
        IN IF limited /\ idl.k = "allids" THEN [rej |-> TRUE, s |-> {}]
           ELSE [rej |-> FALSE, s |-> SearchIdl(rf, db, 0, idl)]
